@@ -1,0 +1,11 @@
+//go:build !verif
+
+package mqtt
+
+// VerifPoint marks a scheduling point for external verification tooling.
+// The default build has it empty, such that the compiler discards each call.
+func verifPoint(string) {}
+
+// VerifNote exposes a value for external verification tooling.
+// The default build has it empty, such that the compiler discards each call.
+func verifNote(string, int64) {}
